@@ -161,6 +161,21 @@ func EnumPathsSeed(start *ssa.BasicBlock, from *ssa.BasicBlock, seed map[ssa.Val
 								return // nil compared with nil: infeasible outcome
 							}
 						}
+						// an error value that is never nil (errors.New, fmt.Errorf, a module
+						// constructor all of whose returns build an error) compared with nil
+						if bo.Op == token.EQL || bo.Op == token.NEQ {
+							var other ssa.Value
+							if IsNilConst(by) {
+								other = bx
+							} else if IsNilConst(bx) {
+								other = by
+							}
+							if other != nil && !IsNilConst(other) && isErrorType(other.Type()) && NeverNilError(other, 0) {
+								if (bo.Op == token.NEQ) != w {
+									return // infeasible: the value is known to be non-nil
+								}
+							}
+						}
 						if kx, okx := ConstInt(bx); okx {
 							if ky, oky := ConstInt(by); oky {
 								var res, dec bool
